@@ -64,3 +64,25 @@ Theorem C05_source_new2best_spec : forall g s p n, exists g', g_pbar_new2best g 
   (if better s (pb_score_best_ g) (pb_pos_best g) then (s, Some p) else (pb_score_best_ g, pb_pos_best g)).
 Proof. exact source_new2best_spec. Qed.
 Print Assumptions C05_source_new2best_spec.
+
+Require Import FinishGen FinishTie.
+(* ---------- Search.finish_search GENERATED from /repo's search.py (generated/FinishGen.v; tie in proofs/FinishTie.v) ---------- *)
+(* the source's finish_search IS the model's: best_score / best_value published from the progress bar, memory_dict from the memory object
+   exactly when memory is on; best_para = value2para(best_value) *)
+Theorem C05_source_finish_search_refines : forall (OP : optimizer) sp names (s : drv OP) (g : g_pbar), abs_pb g = d_pbar s ->
+  match g_Search_finish_search sp names (fin_of s g) with
+  | Ok f => exists s', finish_search sp s = Ok s' /\
+                       d_best_score s' = fn_best_score f /\ d_best_value s' = fn_best_value f /\ d_memory_dict s' = fn_memory_dict f /\
+                       fn_best_para f = option_map (value2para names) (fn_best_value f)
+  | Err e => finish_search sp s = Err e
+  end.
+Proof. exact @finish_search_tie. Qed.
+Print Assumptions C05_source_finish_search_refines.
+
+(* the reported best value / parameters decode the progress bar's best position, the reported best score is the progress bar's *)
+Theorem C05_source_finish_decodes_best : forall sp names (f0 f : g_fin) p,
+  g_Search_finish_search sp names f0 = Ok f -> pb_pos_best (fn_p_bar f0) = Some p ->
+  exists v, position2value sp p = Ok v /\ fn_best_value f = Some v /\ fn_best_para f = Some (value2para names v) /\
+            fn_best_score f = pb_score_best_ (fn_p_bar f0).
+Proof. exact source_finish_decodes_best. Qed.
+Print Assumptions C05_source_finish_decodes_best.
